@@ -28,3 +28,15 @@ Print Assumptions C07_window_spec.
 Theorem C07_window_none : forall ms ip, ip_window ms ip = None <-> forall m, In m ms -> covers m ip = false.
 Proof. exact ip_window_none. Qed.
 Print Assumptions C07_window_none.
+
+(* The window arithmetic before the repair (instruction pointer minus 128, unchecked) agrees with the model wherever it does
+   not trap, and traps - a panic of the whole dump in the debug profile - on a target whose zero page is mapped when the crash
+   instruction pointer lies below 128 (D18); the model's window there is [0, 144). *)
+Theorem C07_unchecked_window_agrees : forall ms ip w, ip_window_unchecked ms ip = WOk w -> ip_window ms ip = w.
+Proof. exact ip_window_unchecked_agrees. Qed.
+Print Assumptions C07_unchecked_window_agrees.
+Theorem C07_refuted_unchecked_window :
+  let zero_page := {| m_start := 0; m_size := 4096; m_sys_start := 0; m_sys_end := 4096; m_off := 0; m_perms := 7; m_name := None |} in
+  ip_window_unchecked [zero_page] 16 = WPanic /\ ip_window [zero_page] 16 = Some (0, 144).
+Proof. exact ip_window_unchecked_refuted. Qed.
+Print Assumptions C07_refuted_unchecked_window.
